@@ -307,6 +307,26 @@ impl Drop for Cqueue {
 
         #[cfg(may_verif)]
         may_queue::verif::point(may_queue::verif::site::CQ_DROP_CANCELLED, self as *const _ as usize);
+        // the select coroutines borrow from our stack, a cancel of the
+        // owner must not cut this wait short
+        let cancel = if crate::coroutine_impl::is_coroutine() {
+            Some(current_cancel_data())
+        } else {
+            None
+        };
+        // re-enable on every way out, the drain re-raises a select coroutine's panic
+        struct EnableCancel(Option<&'static Cancel>);
+        impl Drop for EnableCancel {
+            fn drop(&mut self) {
+                if let Some(c) = self.0 {
+                    c.enable_cancel();
+                }
+            }
+        }
+        if let Some(c) = cancel {
+            c.disable_cancel();
+        }
+        let _enable = EnableCancel(cancel);
         // run the rest event
         loop {
             match self.poll(None) {
@@ -327,13 +347,19 @@ pub fn scope<'a, F, R>(f: F) -> R
 where
     F: FnOnce(&Cqueue) -> R + 'a,
 {
-    let cqueue = Cqueue {
-        ev_queue: Queue::new(),
-        to_wake: AtomicOption::none(),
-        cnt: AtomicUsize::new(0),
-        selectors: Mutex::new(Vec::new()),
-        total: AtomicUsize::new(0),
-        is_panicking: AtomicBool::new(false),
+    let ret = {
+        let cqueue = Cqueue {
+            ev_queue: Queue::new(),
+            to_wake: AtomicOption::none(),
+            cnt: AtomicUsize::new(0),
+            selectors: Mutex::new(Vec::new()),
+            total: AtomicUsize::new(0),
+            is_panicking: AtomicBool::new(false),
+        };
+        // finish any unwinding before the cqueue is dropped (in place, the select
+        // coroutines hold a reference to it): draining them may block, which must
+        // not happen while this thread is marked as panicking
+        panic::catch_unwind(panic::AssertUnwindSafe(|| f(&cqueue)))
     };
-    f(&cqueue)
+    ret.unwrap_or_else(|e| panic::resume_unwind(e))
 }
